@@ -185,6 +185,15 @@ inductive XOp where
   donor. The container is shared with the donor as long as the donor lives — that aliasing is not modelled: when the
   donor survives the drop, model and harness both answer `skip` (a marker in the ghost log `out`). -/
   | adopt (o s : Nat) (f : Fld)
+  /-- `s.f.remove(t)` / `del s.f[i]` / `s.f.pop(i)` (`i` the position of the first occurrence of `t`) on the managed LIST
+  field `f`: list operations `MonitoredList` inherits unchanged, so the container is not told and the relation stays in the
+  graph; only the field content loses one occurrence of `t`, then a collection. An item that inference put into the list is
+  ALSO held by the container's `_inferred_items` (a strong reference that is no field content, kept as long as the owner
+  lives): when the last occurrence of such an item leaves the list, the owner still refers to it (field 9, the model's
+  strong reference that is no relation). "Put there by inference" is read off the state: the relation `f(s, t)` was first
+  recorded by inference (its edge is flagged `inferred`; the edge stays while both ends live — histories with `clear` are
+  not generated together with this operation). -/
+  | unlist (f : Fld) (s t : Obj)
 
 /-- key of the marker "a container is shared by two live instances" in the ghost log -/
 def aliasMark : Nat := 999999
@@ -193,8 +202,22 @@ def aliased (h : Heap) : Bool := h.out.any (fun o => o.key == aliasMark)
 def addRef (h : Heap) (a b : Obj) : Heap := { h with fields := h.fields ++ [⟨a, 9, b⟩] }
 def refOf (h : Heap) (a : Obj) : Option Obj := (h.fields.find? (fun e => e.owner == a && e.fld == 9)).map (·.val)
 
+/-- the field contents after one occurrence of `t` left the list field `f` of `s` (`none`: there is none) -/
+def unlistFields (S : Schema) (fields : List FEntry) (inferredFirst : Bool) (f : Fld) (s t : Obj) : Option (List FEntry) :=
+  if S.kind f != Kind.list then none
+  else if !fields.contains ⟨s, f, t⟩ then none
+  else
+    let fs := fields.erase ⟨s, f, t⟩
+    if inferredFirst && !fs.contains ⟨s, f, t⟩ && !fs.contains ⟨s, 9, t⟩ then some (fs ++ [⟨s, 9, t⟩]) else some fs
+
 def stepXS' (S : Schema) (q : Quirks) (st : DSt) : XOp → DSt
   | .m op => stepS S q st op
+  | .unlist f s t =>
+    if st.err then st else
+    let inf := st.g.edges.any (fun e => e.fld == f && e.src.obj == s && e.tgt.obj == t && e.inferred)
+    match unlistFields S st.h.fields inf f s t with
+    | none => st
+    | some fs => { st with h := ({ st.h with fields := fs }).collect q }
   | .attach r o =>
     if st.err || !(st.h.isLive r && st.h.isLive o) then st
     else { st with h := { st.h with fields := st.h.fields ++ [⟨r, 4, o⟩] } }
@@ -239,6 +262,11 @@ def runXS (S : Schema) (q : Quirks) (st : DSt) (ops : List XOp) : DSt := ops.fol
 
 def specStepX (S : Schema) (q : Quirks) (s : Spec) : XOp → Spec
   | .m op => specStepS S q s op
+  | .unlist f a b =>
+    let inf := s.edges.any (fun e => e.fld == f && e.src.obj == a && e.tgt.obj == b && e.inferred)
+    match unlistFields S s.h.fields inf f a b with
+    | none => s
+    | some fs => ({ s with h := ({ s.h with fields := fs }).collect q }).prune
   | .attach r o =>
     if !(s.h.isLive r && s.h.isLive o) then s
     else { s with h := { s.h with fields := s.h.fields ++ [⟨r, 4, o⟩] } }
@@ -285,6 +313,9 @@ def parseXOne (pos : Nat) (x : Sexp) : Option (List XOp) :=
   | .list [.atom "newrole", o, e] => do pure [XOp.m (.newrole (← o.asNat?) 8 0 (← e.asNat?))]
   | .list [.atom "head", o, g] => do pure [XOp.m (.set 6 (← o.asNat?) (← g.asNat?))]
   | .list [.atom "manage", o, g] => do pure [XOp.m (.set 7 (← o.asNat?) (← g.asNat?))]
+  | .list [.atom "lrm", f, s, t] => do pure [XOp.unlist (← f.asNat?) (← s.asNat?) (← t.asNat?)]
+  | .list [.atom "ldel", f, s, t] => do pure [XOp.unlist (← f.asNat?) (← s.asNat?) (← t.asNat?)]
+  | .list [.atom "lpop", f, s, t] => do pure [XOp.unlist (← f.asNat?) (← s.asNat?) (← t.asNat?)]
   | .list [.atom "newholder", o, r] => do pure [XOp.newholder (← o.asNat?) (← r.asNat?)]
   | .list [.atom "adopt", o, s, f] => do pure [XOp.adopt (← o.asNat?) (← s.asNat?) (← f.asNat?)]
   | .list [.atom "clone", o, s, .atom how] => do
